@@ -102,6 +102,7 @@ def tlc_mc(module, cfg, name, timeout=1200, workers=None, env=None, edges_out=No
     errs = []
     ef = open(edges_out, "w") if edges_out else None
     seen = set()
+    kept = []
     with open(outp) as f:
         for line in f:
             if line.startswith('<<"EDGE", '):
@@ -115,7 +116,7 @@ def tlc_mc(module, cfg, name, timeout=1200, workers=None, env=None, edges_out=No
                     n_edges += 1
                     # optional deterministic sampling of the emitted histories (quick tier)
                     if ef and (sample is None or (hash_str(h) + seed) % sample == 0):
-                        ef.write(h + "\n")
+                        kept.append(h)
                 continue
             m = re.match(r"(\d+) states generated, (\d+) distinct states found", line)
             if m:
@@ -128,6 +129,9 @@ def tlc_mc(module, cfg, name, timeout=1200, workers=None, env=None, edges_out=No
             if line.startswith("Error:") or "is violated" in line:
                 errs.append(line.strip())
     if ef:
+        # TLC's workers print edges in scheduling order: sort, so that a run is reproducible from (tree, seed)
+        kept.sort()
+        ef.write("".join(h + "\n" for h in kept))
         ef.close()
     if rc == 124:
         raise ToolError("TLC timed out on %s (%ss); output in %s" % (module, timeout, outp))
